@@ -35,7 +35,7 @@ TIE = {
  "C02": "validate_bytes", "C14": "validate_bytes, the `ParseError` accessors `offset` / `pointer_offset` / `source_offset` / `complete_offset` / `invalid_encoding_len` and `<ParseError as Diagnostic>::labels`", "C03": "Token::from_encoded, Token::new, Token::decoded",
  "C04": "Pointer::{is_root,count,back,front} and PointerBuf::from_tokens", "C12": "the seven `PointerIndex::get` impls, split_front, split_at, split_back, parent",
  "C13": "Pointer::{starts_with,strip_prefix,ends_with,strip_suffix,intersection,is_root,split_at} and PointerBuf::append",
- "C16": "Index::from_str and Index::{for_len,for_len_incl,for_len_unchecked}",
+ "C16": "Index::from_str, Index::{for_len,for_len_incl,for_len_unchecked}, `Token::to_index` and both `TryFrom<Token>` impls",
  "C11": "PointerBuf::{push_front,push_back,pop_front,pop_back,append,replace,clear,from_tokens}",
  "C05": "the four `resolve`/`resolve_mut` walks (json and toml), `parse_index`, `Index::from_str`, `Index::for_len`",
  "C09": "the four `resolve`/`resolve_mut` walks and both `delete` impls (json and toml), `parse_index`, `Index::from_str`, `Index::for_len`",
